@@ -12,6 +12,7 @@ func Run(r *core.Report, env *build.Env) {
 	s := &goh.Suite{R: r, Env: env, Patterns: []string{"./src/parser", "./src/parser/typechecker", "./src/ddptypes", "./src/ast"}, Files: map[string]string{
 		"src/parser/zz_verif_c09.go":             "parser/zz_verif_c09.go",
 		"src/parser/zz_verif_c09b.go":            "parser/zz_verif_c09b.go",
+		"src/parser/zz_verif_c09c.go":            "parser/zz_verif_c09c.go",
 		"src/parser/zz_verif_c19.go":             "parser/zz_verif_c19.go",
 		"src/parser/typechecker/zz_verif_c09.go": "typechecker/zz_verif_c09.go",
 		"src/parser/typechecker/zz_verif_c14.go": "typechecker/zz_verif_c14.go",
@@ -33,6 +34,7 @@ func Run(r *core.Report, env *build.Env) {
 		{Pkg: "src/parser", Func: "VerifC09OverloadTable3", Bound: "3 overloads registered in any order"},
 		{Pkg: "src/parser/typechecker", Func: "VerifC09FindOverload1", Bound: "table of 1 overload x 2 operands"},
 		{Pkg: "src/parser/typechecker", Func: "VerifC09FindOverload2", Bound: "table of 2 overloads x 2 operands"},
+		{Pkg: "src/parser", Func: "VerifC09InstantiationOrder", Bound: "whole frontend: 3 earlier instantiations x 3 later declarations x 4 later uses of generic functions; calls in the later instantiation's body resolve alike with and without the earlier instantiation"},
 		{Pkg: "src/parser", Func: "VerifC09CallSites", Bound: "populations of up to 3 of 11 alias declarations over the vocabulary 'stufe <a> [plus <b>]' (value/Referenz, Zahl/Text/type definition/Zahlen Liste, generic T and T Liste, a generic function whose instantiation fails for all but one argument type, permuted placeholders) x 8 argument forms per position"},
 	}
 	if r.Tier == "thorough" {
